@@ -40,6 +40,7 @@ func (c07) Classes() []sim.Class {
 			sim.Class{Name: "purespin", Engine: e, Quick: 300, Thorough: 15000, DeathIsViolation: true, RunTimeoutSec: 30, Batch: 20},
 			// a guest parked in memory.atomic.wait (threads feature): the recorded known finding
 			sim.Class{Name: "parked", Engine: e, Quick: 2, Thorough: 12, RunTimeoutSec: 60, Batch: 1},
+			sim.Class{Name: "sleeping", Engine: e, Quick: 1, Thorough: 6, RunTimeoutSec: 60, Batch: 1},
 			// a guest that recurses exponentially without any loop or tail call: the recorded known finding
 			sim.Class{Name: "recursion", Engine: e, Quick: 2, Thorough: 12, RunTimeoutSec: 60, Batch: 1},
 			// a guest spinning in its start-section function, i.e. inside InstantiateModule
@@ -438,6 +439,9 @@ type scenario struct {
 func (c07) Run(t *tape.Tape, cfg sim.Config) (res sim.Result) {
 	if cfg.Class == "parked" {
 		return runParked(t, cfg)
+	}
+	if cfg.Class == "sleeping" {
+		return runSleeping(t, cfg)
 	}
 	if cfg.Class == "recursion" {
 		return runRecursion(t, cfg)
